@@ -199,7 +199,11 @@ class TEnum(Ty):
     def sort(self):
         return self._es()[0]
 
+    aliases = None
+
     def member(self, m):
+        if self.aliases and m in self.aliases:
+            m = self.aliases[m]
         return self._es()[1][self.members.index(m)]
 
 
